@@ -20,7 +20,12 @@ func top(fn *ssa.Function) *ssa.Function {
 // Owner: the operation a statement belongs to — the outermost function that creates the builder, or, when that
 // is a private helper (unexported plain function that no rule names) with a single calling operation, that caller.
 // Extracting statements into such a helper therefore does not change who "owns" them.
-func (c *Ctx) Owner(s *Stmt) string { return c.Key(c.effectiveTop(top(s.Fn), 0)) }
+func (c *Ctx) Owner(s *Stmt) string {
+	if s.Via != nil {
+		return c.Key(c.effectiveTop(top(s.Via.Parent()), 0))
+	}
+	return c.Key(c.effectiveTop(top(s.Fn), 0))
+}
 
 var namedAnchors = map[string]bool{fnDeliver: true, fnDeadLetter: true}
 
